@@ -26,6 +26,8 @@ def world_mix():
             {"name": "c4", "dynamic": False, "body": [E(B("le", F("s1.x"), B("add", F("a"), 1)))]},
             {"name": "c5", "dynamic": False, "body": [E(B("ne", F("b"), F("s2.x")))]},
             {"name": "c6", "dynamic": False, "body": [IN(F("a"), [{"k": "l", "p": "nl"}])]},
+            {"name": "c7", "dynamic": False, "body": [{"k": "foreach", "l": "nl", "v": "i", "it": True, "idx": False,
+                                                        "body": [E(B("ne", F("s1.x"), {"k": "it", "v": "i", "p": ""}))]}]},
         ]}
     return {"classes": {"Sub": sub, "Top": top},
             "population": [{"id": "o1", "cls": "Top"}, {"id": "o2", "cls": "Top"},
@@ -40,6 +42,12 @@ MIX_PROBE = ["a", "b", "s1.x"]
 def hist_mix(rnd, sid, steps=10, objs=("o1", "o2")):
     world = world_mix()
     ops = [{"op": "construct", "o": o} for o in objs] + [{"op": "construct", "o": "fa"}, {"op": "construct", "o": "fb"}]
+    # every declared-random field takes part in one successful call first (quarantine of known finding
+    # C03-referenced-never-randomized: see known_findings.json; witnesses in family_H)
+    ops.append({"op": "call", "call": {"kind": "free", "roots": ["fa", "fb"], "owner": "", "inline": []}})
+    for o in objs:
+        ops.append({"op": "rl", "kind": "rl_extend", "p": o + ".rl", "items": [3]})
+        ops.append({"op": "call", "call": mcall(o)})
     inl = [
         [E(B("eq", F("a"), F("k")))],
         [E(B("lt", F("s1.x"), F("s2.x")))],
@@ -78,7 +86,7 @@ def hist_mix(rnd, sid, steps=10, objs=("o1", "o2")):
             else:
                 ops.append({"op": "list", "kind": kind, "p": o + ".nl", "vs": [bits(rnd.randrange(4), 2)]})
         elif r < 0.80:
-            kind = rnd.choice(["method", "method", "with", "with", "free_sub", "free_multi", "free_with"])
+            kind = rnd.choice(["method", "method", "with", "with", "free_sub", "free_multi", "free_with", "ref_unpassed", "ref_unpassed"])
             if kind == "method":
                 ops.append({"op": "call", "call": mcall(o)})
             elif kind == "with":
@@ -87,6 +95,17 @@ def hist_mix(rnd, sid, steps=10, objs=("o1", "o2")):
                 ops.append({"op": "call", "call": {"kind": "free", "roots": [o + ".s1"], "owner": "", "inline": []}})
             elif kind == "free_multi":
                 ops.append({"op": "call", "call": {"kind": "free", "roots": [o, "fa"], "owner": "", "inline": []}})
+            elif kind == "ref_unpassed":
+                # constraints that mention random fields which are NOT part of the call: they act as constants
+                oth = [x for x in objs if x != o]
+                oth = oth[0] if oth else o
+                v = rnd.choice([
+                    {"kind": "free_with", "roots": ["fa"], "owner": "", "inline": [E(B("le", F("fa"), F("fb")))]},
+                    {"kind": "free_with", "roots": ["fb"], "owner": "", "inline": [E(B("ne", F("fb"), F(o + ".a")))]},
+                    {"kind": "free_with", "roots": [o], "owner": "", "inline": [E(B("le", F(o + ".a"), F(oth + ".b")))]},
+                    {"kind": "free_with", "roots": [o + ".s1"], "owner": "", "inline": [E(B("ne", F(o + ".s1.x"), F(o + ".a")))]},
+                    {"kind": "free_with", "roots": [o], "owner": "", "inline": [E(B("ge", F(o + ".b"), F("fa")))]}])
+                ops.append({"op": "call", "call": v})
             else:
                 ops.append({"op": "call", "call": {"kind": "free_with", "roots": ["fa", "fb", o], "owner": "",
                                                    "inline": [E(B("lt", F("fa"), F("fb"))), E(B("eq", F(o + ".a"), F("fa")))]}})
@@ -96,8 +115,24 @@ def hist_mix(rnd, sid, steps=10, objs=("o1", "o2")):
     return {"id": sid, "world": world, "ops": ops, "tags": []}
 
 
-def family_H(tier, seed, n=None):
+def witness_ref_unpassed():
+    """known finding C03-referenced-never-randomized: a declared-random field that has never taken part in a
+    successful call is modified by a call that only references it"""
+    w = world_mix()
     out = []
+    ops = [{"op": "construct", "o": "fa"}, {"op": "construct", "o": "fb"},
+           {"op": "set", "p": "fb", "v": bits(2, 2)},
+           {"op": "call", "call": {"kind": "free_with", "roots": ["fa"], "owner": "", "inline": [E(B("le", F("fa"), F("fb")))]}}]
+    out.append({"id": "H/witness/ref_unpassed/0", "world": w, "ops": ops, "tags": []})
+    ops = [{"op": "construct", "o": "o1"}, {"op": "construct", "o": "o2"}, {"op": "rl", "kind": "rl_extend", "p": "o1.rl", "items": [3]},
+           {"op": "set", "p": "o2.b", "v": bits(2, 2)},
+           {"op": "call", "call": {"kind": "free_with", "roots": ["o1"], "owner": "", "inline": [E(B("le", F("o1.a"), F("o2.b")))]}}]
+    out.append({"id": "H/witness/ref_unpassed/1", "world": w, "ops": ops, "tags": []})
+    return out
+
+
+def family_H(tier, seed, n=None):
+    out = witness_ref_unpassed()
     n = n or (30 if tier == "quick" else 400)
     rnd = random.Random(555)
     for t in range(n // 2):                                   # deterministic core
